@@ -123,7 +123,15 @@ func C02(env *Env) {
 		nul := pat.Slice(pat.Op(flow.OpArray, "", pat.Const("0")), "", "")
 		specs = append(specs, gateSpec{rule: "R3/pem", name: "trailing-bytes",
 			m:      pat.Op("implies", "", pat.NonEmpty(rem2), pat.OneOf(pat.Call("bytes.Equal", rem2, nul), pat.Call("bytes.Equal", nul, rem2))),
-			expect: "after the third block: len(rest) != 0 implies bytes.Equal(rest, []byte{0})"})
+			expect: "after the third block: len(rest) != 0 implies bytes.Equal(rest, []byte{0})",
+			// the same spread over an alternative: rest is empty, or has one byte and that byte is 0
+			alt: func(a *flow.Alt) bool {
+				if hasGateAny(a, pat.Empty(rem2)) != nil {
+					return true
+				}
+				return hasGateAny(a, pat.Bin("==", pat.Len(rem2), pat.Const("1"))) != nil &&
+					hasGateAny(a, pat.Bin("==", pat.Op(flow.OpIndex, "", rem2, pat.Const("0")), pat.Const("0"))) != nil
+			}})
 		// x509 path validation of the leaf
 		verifyOpts := func(t *flow.Term, b pat.Bind) bool {
 			t = flow.StripConv(t)
